@@ -569,6 +569,27 @@ func SchemaMutations() []SchemaMutation {
 			t.Dirs = append(t.Dirs, model.DirUse{Name: "noArgDirZz", Args: []model.Arg{{Name: "nopeArgZz", Value: int64(3)}}})
 			return "nopeArgZz", true
 		}},
+		{"directive-required-argument-omitted", func(r *rand.Rand, s *model.Schema) (string, bool) {
+			// the use leaves out an argument that is non-null and has no default (the other one is given)
+			s.Dirs = append(s.Dirs, &model.DirDef{Name: "needArgZz", On: []string{"OBJECT", "ENUM", "INTERFACE", "UNION", "INPUT_OBJECT", "SCALAR", "ENUM_VALUE"},
+				Args: []*model.ArgDef{{Name: "opt", Type: model.Named("Int")}, {Name: "needZz", Type: model.NonNullOf(model.Named("Int"))}}})
+			use := model.DirUse{Name: "needArgZz", Args: []model.Arg{{Name: "opt", Value: int64(1)}}}
+			if r.Intn(2) == 0 {
+				use.Args = nil
+			}
+			if r.Intn(3) == 0 {
+				for _, t := range s.Types {
+					if t.Kind == model.Enum && len(t.Values) > 0 {
+						v := t.Values[r.Intn(len(t.Values))]
+						v.Dirs = append(v.Dirs, use)
+						return "needZz", true
+					}
+				}
+			}
+			t := s.Types[r.Intn(len(s.Types))]
+			t.Dirs = append(t.Dirs, use)
+			return "needZz", true
+		}},
 		{"directive-uncoercible-arg", func(r *rand.Rand, s *model.Schema) (string, bool) {
 			s.Dirs = append(s.Dirs, &model.DirDef{Name: "argDirZz", On: []string{"OBJECT"}, Args: []*model.ArgDef{{Name: "ok", Type: model.Named("Int")}}})
 			t := pickType(r, s, model.Object)
